@@ -204,8 +204,7 @@ theorem removeFlagChunk_good (site : ChunkSite) (hs : site.stmts = [Shape.inList
   rw [stmt0 hs]
   simp only [bind, Except.bind, pick_inList1]
   rw [bind_inList1 c ids [] _ (by simp)]
-  simp [pure, Except.pure]
-  congr 1; funext p; rw [Bool.beq_comm (a := flag)]
+  simp [pure, Except.pure, nocaseEq]
 
 theorem removeFlagStep_append (flag : FlagVal) (a b : List MessageId) (db : DB) :
     removeFlagStep flag (a ++ b) db = removeFlagStep flag a db >>= removeFlagStep flag b := by
@@ -215,7 +214,7 @@ theorem removeFlagStep_append (flag : FlagVal) (a b : List MessageId) (db : DB) 
   apply List.filter_congr
   intro p _
   rw [List.contains_eq_mem, List.contains_eq_mem, List.contains_eq_mem]
-  by_cases ha : p.1 ∈ a <;> by_cases hb : p.1 ∈ b <;> by_cases hf : p.2 == flag <;> simp [ha, hb, hf]
+  by_cases ha : p.1 ∈ a <;> by_cases hb : p.1 ∈ b <;> by_cases hf : p.2.toLower == flag.toLower <;> simp [ha, hb, hf]
 
 theorem removeFlag_faithful (S : Sites) (h : S.good "RemoveFlagFromMessages" = true)
     (ids : List MessageId) (flag : FlagVal) (db : DB) :
